@@ -82,3 +82,10 @@ def connectors(name):
     if t == "power-switch":
         return {1, 2, 5, 6}
     return {1, 2}
+
+
+def is_known_signal(name: str) -> bool:
+    """True when draftsman's shipped game data knows the signal name."""
+    from draftsman.data import signals as signal_data
+
+    return name in signal_data.raw
